@@ -1,4 +1,4 @@
-From SV Require Import Store.Raw Store.Masked Store.StoreInv World.Env World.StoreSim Store.Events World.World World.Join World.JoinEvents.
+From SV Require Import Store.Raw Store.Masked Store.StoreInv World.Env World.StoreSim Store.Events World.World World.Join World.JoinEvents World.JoinEventStream.
 From SV Require Import Props.C12.
 Check (C12_events_replay_membership : forall ms m av ent so c, MInv ms m ->
   (forall s, so <> SClear s) -> (forall s b, so <> SSetEmission s b) ->
@@ -21,3 +21,6 @@ Check (C12_read_only_is_silent : forall ms av e so c,
 Check (C12_events_of_join_accesses : forall ms m a c, MInv ms m ->
   NS.mem (match a with JRead i | JAccess i _ _ | JRemove i => i end) (ms_mask ms) = true ->
   ms_chan (fst (fst (ms_jact ms a c))) = (if ms_emit ms then ev_of_act (ms_wrap ms) a else []) ++ ms_chan ms).
+Check (C12_a_join_reports_exactly_its_mutable_accesses_and_removals : forall e av eids hs k ms s, TInv e ->
+  cx_stuck (se_cx (fst (env_join e av eids hs k ms))) = false ->
+  env_chan (fst (env_join e av eids hs k ms)) s = jout_evs s (tag e s) hs ms (snd (env_join e av eids hs k ms)) ++ env_chan e s).
